@@ -301,9 +301,13 @@ def scan_assumptions(text):
                 # describe with the next fn/struct name found on this or following lines
                 desc = ''
                 for j in range(k, min(k + 6, len(lines))):
-                    m = re.search(r'(fn|struct|enum)\s+([A-Za-z0-9_]+)|assume_specification\s*(<[^\[]*>)?\s*\[\s*([^\]]+)\]', mlines[j])
+                    m = re.search(r'assume_specification.*?\[\s*(.+?)\s*\]\s*\(', mlines[j])
                     if m:
-                        desc = (m.group(2) or m.group(4) or '').strip()
+                        desc = m.group(1).strip()
+                        break
+                    m = re.search(r'(fn|struct|enum)\s+([A-Za-z0-9_]+)', mlines[j])
+                    if m:
+                        desc = m.group(2).strip()
                         break
                 found.append('%s: %s' % (what, desc or lines[k].strip()[:80]))
     # de-duplicate keeping order
@@ -555,11 +559,47 @@ def write_replay(prop, r, f, bounded_runs):
     return path, cex
 
 
+def replay(prop, path):
+    """Re-run what a replay file describes against the current /repo tree: the verifier obligation
+    and, when the file carries a concrete failing input, the bounded harness that produced it.
+    Exit 1 if the violation reproduces, 0 if it does not, 2 if undecided."""
+    doc = load_json(path)
+    obl = doc.get('obligation', '')
+    print('replay: property=%s obligation=%s' % (doc.get('property'), obl))
+    reproduced = False
+    if doc.get('failing_input') or obl.endswith('.bounded'):
+        import cexsearch
+        unit = (doc.get('failing_input') or {}).get('bounded_harness_unit') or doc.get('unit') or obl.rsplit('.bounded', 1)[0]
+        res = cexsearch.run_units([unit])
+        for u, b in res.items():
+            print('bounded harness %s: %s %s' % (u, b.get('status'), json.dumps(b.get('detail'))[:600]))
+            if b.get('status') == 'cex':
+                reproduced = True
+    if not obl.endswith('.bounded'):
+        cfg = PROPS[prop]
+        results = [run_group(g, 'quick') for g in cfg['groups']]
+        names = set(f['obligation'] for r in results for f in r['failed'])
+        und = [r['undecided'] for r in results if r['status'] == 'undecided']
+        if obl in names:
+            print('verifier: obligation %s FAILS on the current tree' % obl)
+            reproduced = True
+        elif und:
+            print('verifier: undecided (%s)' % '; '.join(und)[:300])
+            if not reproduced:
+                return 2
+        else:
+            print('verifier: obligation %s is discharged on the current tree' % obl)
+    print('REPRODUCED' if reproduced else 'NOT-REPRODUCED')
+    return 1 if reproduced else 0
+
+
 if __name__ == '__main__':
     if len(sys.argv) < 2:
         print(__doc__)
         sys.exit(2)
     prop = sys.argv[1]
+    if len(sys.argv) > 3 and sys.argv[2] == '--replay':
+        sys.exit(replay(prop, sys.argv[3]))
     tier = sys.argv[2] if len(sys.argv) > 2 else os.environ.get('VERIF_TIER', 'quick')
     if tier not in ('quick', 'thorough'):
         tier = 'quick'
